@@ -149,8 +149,9 @@ def rule_l3(ctx):
 
 
 class _SignEval:
-    def __init__(self, fn, negative: bool, rule: str, construct: str):
-        self.fn, self.neg, self.rule, self.c = fn, negative, rule, construct
+    def __init__(self, fn, case: str, rule: str, construct: str):
+        # case: "neg" (v < 0), "zero" (v == 0), "pos" (v > 0) - the three sign classes every comparison with 0 is constant on
+        self.fn, self.case, self.neg, self.rule, self.c = fn, case, case == "neg", rule, construct
         # regexes the auxiliary z3 variables are constrained to: z3_solver.add(z3.InRe(<var>, <re>))
         self.var_re = {}
         for call in calls_in(fn):
@@ -162,10 +163,12 @@ class _SignEval:
 
     def cond(self, e: ast.expr) -> bool:
         t = src(e)
-        if t in ("int_model_value >= 0", "0 <= int_model_value", "not int_model_value < 0"):
-            return not self.neg
-        if t in ("int_model_value < 0", "0 > int_model_value", "not int_model_value >= 0"):
-            return self.neg
+        if isinstance(e, ast.Compare) and len(e.ops) == 1 and not isinstance(e.ops[0], (ast.In, ast.NotIn, ast.Is, ast.IsNot)):
+            sides = [src(e.left), src(e.comparators[0])]
+            if sorted(sides) == ["0", "int_model_value"]:
+                # a comparison of the value with 0 is constant on each sign class: evaluate it on a representative
+                rep = {"neg": -5, "zero": 0, "pos": 5}[self.case]
+                return bool(eval(compile(ast.Expression(body=e), "<cond>", "eval"), {"__builtins__": {}}, {"int_model_value": rep}))
         if isinstance(e, ast.UnaryOp) and isinstance(e.op, ast.Not):
             return not self.cond(e.operand)
         if isinstance(e, ast.Name):
@@ -230,7 +233,7 @@ class _SignEval:
                     return ([("fin", frozenset({"-"}))] if self.neg else []) + [("abs",)]
                 if t == "-int_model_value":
                     # digits of -v: |v| when v is negative; for v >= 0 this is '-'+|v| (or '0')
-                    return [("abs",)] if self.neg else [("fin", frozenset({"-"})), ("abs",)]
+                    return [("abs",)] if self.neg or self.case == "zero" else [("fin", frozenset({"-"})), ("abs",)]
                 if t == "abs(int_model_value)":
                     return [("abs",)]
             # z3_solver.model()[<var>].as_string()
@@ -278,12 +281,14 @@ def rule_l4(ctx):
     if len(texts) < 3:
         raise Unrecognised("C14.L4", c, f"only {len(texts)} numeric text constructions found (expected the direct parse, the regex membership test and the padded parse)")
     for what, e in texts:
-        for neg in (False, True):
-            ev = _SignEval(f, neg, "C14.L4", c)
+        for case in ("pos", "zero", "neg"):
+            neg = case == "neg"
+            ev = _SignEval(f, case, "C14.L4", c)
             toks = ev.string(e)
             ok, why = _denotes_value(toks, neg)
-            ctx.check(ok, "L4-numeric-text-denotes-value", c, f"{what} [{'v < 0' if neg else 'v >= 0'}] `{' '.join(src(e).split())[:50]}`", site(e),
-                      f"the {what} does not denote the model value: {why} (a str.to.int solution is then turned into a tree with a different numeric value, e.g. '5' for -5)",
+            ctx.check(ok, "L4-numeric-text-denotes-value", c, f"{what} [{dict(pos='v > 0', zero='v == 0', neg='v < 0')[case]}] `{' '.join(src(e).split())[:50]}`", site(e),
+                      f"the {what} does not denote the model value: {why} (a str.to.int solution is then turned into a tree with a different numeric value, e.g. '5' for -5; "
+                      "or, for the value 0, only texts with a minus sign are tried, so a grammar that derives '00' but no '-' loses the solution and solve() raises instead of returning it)",
                       "[+]?0*<digits> for v >= 0, -0*<digits> for v < 0")
 
 
